@@ -206,8 +206,8 @@ def main(argv):
                     " left fold" if m[0] in "FS" else "", want, l[:160]),
                     {"op": what, "case": l, "impl": o, "expected": want, "how": "echo '%s' | hx_murmur" % l[:300]})
 
-    if c.tier == "thorough":
-        asan_lines(c, "hx_murmur", lines, "(exact-size heap buffers)")
+    # ASan/UBSan build of the harness: exact-size heap buffers and every start alignment (over-reads, misaligned loads)
+    asan_lines(c, "hx_murmur", lines, "(exact-size heap buffers)")
 
     # ---- native grid: all lengths x 8 alignments next to a PROT_NONE page, vs the Python reference
     maxlen = 512 if c.tier == "quick" else 4096
